@@ -10,7 +10,10 @@ from ..core import Check, audit, import_repo
 from ..lean import Driver, hx
 
 LEVEL_NOTE = ("modelled, not verified: datetime/timedelta arithmetic and strptime of CPython 3.12.1 as encoded in "
-              "Model/Date.lean (proved equal to an independent day-by-day calendar in Props/C10.lean)")
+              "Model/Date.lean (proved equal to an independent day-by-day calendar in Props/C10.lean). C10Cmd: the whole command over any "
+              "list of trash directories: an entry is gone iff its info has a DeletionDate older than DAYS, every other entry (undated, "
+              "unreadable, young, on the boundary, in the future) is intact, nothing outside the trash directories changes; without DAYS "
+              "everything goes; an overflowing DAYS stops the command at the first dated entry; payloads without info are swept with DAYS too (real behaviour)")
 RULE = ("exhaustive boundary grid: DAYS in {0,1,2,7,30,365,366,3650,10^6,10^9-1,10^9} x 26 'now' values x deltas "
         "{0, +-1 s, +-1 d, +-DAYS d +-1 s, year 1, year 9999} x microseconds {0, 1, 999999}; then seeded random triples; "
         "distinct by (days, now, us, date); every case reaches older_than")
